@@ -904,9 +904,13 @@ impl Value
         response: Result<Message<Bytes>, Error>,
         config: &Config,
     ) -> Result<Value /*<C>*/, Error> {
+        // The derived value is part of what the upstream sent when the
+        // original value was created. It cannot be valid for longer than
+        // that, even if the record with the smallest TTL was removed.
+        let valid_for = min(val.valid_for, validity(&response, config)?);
         Ok(Self {
             created_at: val.created_at, //.clone(),
-            valid_for: validity(&response, config)?,
+            valid_for,
             response,
         })
     }
